@@ -432,6 +432,7 @@ def describe():
              "seeded file (every truncation offset, 4 corruptions per byte, every record drop/dup/adjacent swap); each swept fault is one "
              "evaluation. distinct_nontrivial counts distinct (format, set of fault kinds that were applied, reader/downstream outcome class) "
              "triples; fault-free runs that yield a document are included as one class per format."),
+    "fault_note": "storage/channel faults on the byte stream between producer and reader; 'fired' = the bytes changed, 'noop' = the fault left them unchanged; sweep.* are the enumerated single faults",
     "nontrivial_measure": "case_class",
     "components": {"real": ["all five readers (imsc, scc, stl, srt, vtt) incl. tokenizer/datafile/tf/iso6937", "isd.py", "filters (LCD + ISD filters used by writers)", "srt/vtt/imsc writers", "model.py", "xml.etree (stdlib)"],
                    "stub": [], "simulated": ["authoring tools (producers)", "storage/channel fault injector", "stream objects (BytesIO behind TextIOWrapper/BufferedReader)"],
